@@ -28,6 +28,6 @@ LEVEL_TEXT = ("Generator/loop contracts proved by induction on the real bodies: 
               "1 <= |f| <= max-6, count = ceil(n/k); encode_msg yields one PDV per P-DATA with exact command/last header bits, "
               "PDV-list length <= max, command fragments before data fragments, everything sent (memory and file-backed); "
               "decode_msg appends each payload to the buffer its header names and signals completion exactly at the last fragment, "
-              "for any grouping of PDVs into primitives. No bound on lengths or on max.")
+              "for any grouping of PDVs into primitives. No bound on lengths or on max. DIMSEServiceProvider.send_msg: message class table, the PEER's maximum length, every P-DATA sent in order.")
 LEVEL_NOTE = "trusted: pyvc, z3 (NIA+Seq), math.ceil/float exactness below 2^53, file and BytesIO models, dsutils.encode/decode contracts."
 TECHNIQUE = "deductive: inductive loop/generator contracts over symbolic lengths (VCs from the AST, z3 nonlinear arithmetic + sequences)"
